@@ -15,20 +15,28 @@ From PK Require Export Base.Bytes Base.Prim.
 From Coq Require Export String.
 Open Scope Z_scope.
 
-Inductive mult := Req | Opt | Many | Many1.      (* Many1 = loop followed by `if len(xs) == 0: raise` *)
+Inductive mult :=
+| Req | Opt | Many
+| Many1                                        (* loop followed by `if len(xs) == 0: raise` *)
+| Counted (ix : nat) (c : string) (tag : Z).   (* `for _ in range(n)`: exactly n occurrences, read unconditionally;
+                                                  n = the Integer item `tag` of the structure (class c) held by field ix *)
 
 Inductive kind :=
 | KPrim (t : ptype)          (* any primitive but Enumeration *)
 | KEnum (e : string)         (* Enumeration over the named enum of kmip.core.enums *)
 | KStruct (c : string).      (* nested structure class *)
 
-(* dispatch: key = the single primitive value of item number by_ix of the same structure *)
-Record by_spec := { by_ix : nat; by_skip_if_absent : bool; by_table : list (pval * (Z * kind)) }.
+(* dispatch key: the single primitive value of an earlier item of the same structure (ByField), or the
+   TTLV type byte of the item that comes next on the stream (ByNextType: `is_type_next`) *)
+Inductive bsrc := ByField (ix : nat) | ByNextType.
+Record by_spec := { by_src : bsrc; by_skip_if_absent : bool; by_table : list (pval * (Z * kind)) }.
 
 (* an item is active under protocol version v (10*major+minor) when i_lo <= v < i_hi *)
 Record item := { i_tag : Z; i_kind : kind; i_lo : Z; i_hi : Z; i_mult : mult; i_by : option by_spec }.
 
-Record cls := { c_name : string; c_rd : list item; c_wr : list item; c_oversize_check : bool }.
+(* c_substream = false: the items are read from the enclosing stream right after the 8 header bytes; the
+   length field is not used and nothing is checked after the last item (RequestMessage / ResponseMessage) *)
+Record cls := { c_name : string; c_rd : list item; c_wr : list item; c_oversize_check : bool; c_substream : bool }.
 
 Record env := { e_classes : list cls; e_enums : list (string * list Z) }.
 
@@ -59,20 +67,72 @@ Definition key_of (pre : list (list value)) (ix : nat) : option pval :=
 
 Inductive resolved := RItem (it : item) | RSkip | RFail.
 
+(* TTLV type code of a value *)
+Definition tyc (x : value) : Z :=
+  match x with VP p => type_code (ptype_of p) | VS _ => STRUCT_CODE end.
+
 (* `pre` = the fields of the items before this one (already written / already read) *)
-Definition resolve1 (pre : list (list value)) (it : item) : resolved :=
+Definition key_w (pre : list (list value)) (src : bsrc) (f : list value) : option pval :=
+  match src with
+  | ByField ix => key_of pre ix
+  | ByNextType => match f with x :: _ => Some (VInt (tyc x)) | [] => None end
+  end.
+
+Definition key_r (pre : list (list value)) (src : bsrc) (bs : bytes) : option pval :=
+  match src with
+  | ByField ix => key_of pre ix
+  | ByNextType => match take_exact 4 bs with Some (t, _) => Some (VInt (nth 3 t 0)) | None => None end
+  end.
+
+Definition resolve_k (key : option pval) (b : by_spec) (it : item) : resolved :=
+  match key with
+  | None => if by_skip_if_absent b then RSkip else RFail
+  | Some p =>
+      match find (fun e => pval_eqb (fst e) p) (by_table b) with
+      | Some (_, (tag, k)) =>
+          RItem {| i_tag := tag; i_kind := k; i_lo := i_lo it; i_hi := i_hi it; i_mult := i_mult it; i_by := None |}
+      | None => RFail
+      end
+  end.
+
+Definition resolve_w (pre : list (list value)) (it : item) (f : list value) : resolved :=
   match i_by it with
   | None => RItem it
-  | Some b =>
-      match key_of pre (by_ix b) with
-      | None => if by_skip_if_absent b then RSkip else RFail
-      | Some p =>
-          match find (fun e => pval_eqb (fst e) p) (by_table b) with
-          | Some (_, (tag, k)) =>
-              RItem {| i_tag := tag; i_kind := k; i_lo := i_lo it; i_hi := i_hi it; i_mult := i_mult it; i_by := None |}
-          | None => RFail
+  | Some b => resolve_k (key_w pre (by_src b) f) b it
+  end.
+
+Definition resolve_r (pre : list (list value)) (it : item) (bs : bytes) : resolved :=
+  match i_by it with
+  | None => RItem it
+  | Some b => resolve_k (key_r pre (by_src b) bs) b it
+  end.
+
+(* ------------------------------------------------------------------ counted loops *)
+
+Fixpoint index_of_tag (tag : Z) (items : list item) (i : nat) : option nat :=
+  match items with
+  | [] => None
+  | it :: r => if i_tag it =? tag then Some i else index_of_tag tag r (S i)
+  end.
+
+Definition count_of (E : env) (v : Z) (pre : list (list value)) (ix : nat) (c : string) (tag : Z) : option Z :=
+  match nth_error pre ix with
+  | Some [VS fs] =>
+      match find_cls E c with
+      | Some k =>
+          match index_of_tag tag (filter (active v) (c_rd k)) 0 with
+          | Some j => match nth_error fs j with Some [VP (VInt n)] => Some n | _ => None end
+          | None => None
           end
+      | None => None
       end
+  | _ => None
+  end.
+
+Definition item_count (E : env) (v : Z) (pre : list (list value)) (it : item) : option Z :=
+  match i_mult it with
+  | Counted ix c tag => count_of E v pre ix c tag
+  | _ => Some 0
   end.
 
 (* ------------------------------------------------------------------ writer *)
@@ -90,6 +150,7 @@ Definition mult_ok (m : mult) (n : nat) : bool :=
   | Opt => Nat.leb n 1
   | Many => true
   | Many1 => Nat.leb 1 n
+  | Counted _ _ _ => true
   end.
 
 Definition enc_field (wrf : Z -> kind -> value -> option bytes) (p : item * list value) : option bytes :=
@@ -102,7 +163,7 @@ Fixpoint wr_items (wrf : Z -> kind -> value -> option bytes) (pre : list (list v
   match items, fields with
   | [], [] => Some []
   | it :: its, f :: fs =>
-      match resolve1 pre it with
+      match resolve_w pre it f with
       | RFail => None
       | RSkip => match f with [] => wr_items wrf (pre ++ [f]) its fs | _ => None end
       | RItem it' =>
@@ -145,15 +206,22 @@ End Writer.
 
 (* values the round-trip theorem speaks about: byte strings hold bytes, enumeration values are
    members of their enumeration, structures have one field list per active item (recursively) *)
-Fixpoint wf_items (wff : kind -> value -> bool) (pre : list (list value))
+Definition count_ok (it : item) (cnt : option Z) (n : nat) : bool :=
+  match i_mult it with
+  | Counted _ _ _ => match cnt with Some c => Z.of_nat n =? Z.max c 0 | None => false end
+  | _ => true
+  end.
+
+Fixpoint wf_items (E : env) (v : Z) (wff : kind -> value -> bool) (pre : list (list value))
          (items : list item) (fields : list (list value)) : bool :=
   match items, fields with
   | [], [] => true
   | it :: its, f :: fs =>
-      match resolve1 pre it with
+      match resolve_w pre it f with
       | RFail => false
-      | RSkip => match f with [] => wf_items wff (pre ++ [f]) its fs | _ => false end
-      | RItem it' => forallb (wff (i_kind it')) f && wf_items wff (pre ++ [f]) its fs
+      | RSkip => match f with [] => wf_items E v wff (pre ++ [f]) its fs | _ => false end
+      | RItem it' => forallb (wff (i_kind it')) f && count_ok it (item_count E v pre it) (List.length f)
+                     && wf_items E v wff (pre ++ [f]) its fs
       end
   | _, _ => false
   end.
@@ -171,7 +239,7 @@ Fixpoint wfv (fuel : nat) (k : kind) (x : value) {struct fuel} : bool :=
       | KStruct c, VS fields =>
           match find_cls E c with
           | None => false
-          | Some k => wf_items (wfv f) [] (filter (active v) (c_wr k)) fields
+          | Some k => wf_items E v (wfv f) [] (filter (active v) (c_wr k)) fields
           end
       | _, _ => false
       end
@@ -198,7 +266,24 @@ Fixpoint rd_many (rd1 : bytes -> option (value * bytes)) (tag : Z) (lfuel : nat)
       else Some ([], bs)
   end.
 
-Definition rd_field (rd1 : bytes -> option (value * bytes)) (it : item) (bs : bytes)
+(* `for _ in range(n)`: n reads, no peeking; fuel bounds the turns (each read consumes bytes) *)
+Fixpoint rd_counted (rd1 : bytes -> option (value * bytes)) (fuel : nat) (n : Z) (bs : bytes)
+  : option (list value * bytes) :=
+  if n <=? 0 then Some ([], bs) else
+  match fuel with
+  | O => None
+  | S f =>
+      match rd1 bs with
+      | None => None
+      | Some (x, r) =>
+          match rd_counted rd1 f (n - 1) r with
+          | None => None
+          | Some (xs, r') => Some (x :: xs, r')
+          end
+      end
+  end.
+
+Definition rd_field (rd1 : bytes -> option (value * bytes)) (it : item) (cnt : option Z) (bs : bytes)
   : option (list value * bytes) :=
   match i_mult it with
   | Req =>
@@ -215,25 +300,30 @@ Definition rd_field (rd1 : bytes -> option (value * bytes)) (it : item) (bs : by
       | Some ([], _) => None
       | r => r
       end
+  | Counted _ _ _ =>
+      match cnt with
+      | Some n => rd_counted rd1 (S (List.length bs)) n bs
+      | None => None
+      end
   end.
 
-Fixpoint rd_items (rdk : Z -> kind -> bytes -> option (value * bytes)) (pre : list (list value))
+Fixpoint rd_items (E : env) (v : Z) (rdk : Z -> kind -> bytes -> option (value * bytes)) (pre : list (list value))
          (items : list item) (bs : bytes) : option (list (list value) * bytes) :=
   match items with
   | [] => Some ([], bs)
   | it :: rest =>
-      match resolve1 pre it with
+      match resolve_r pre it bs with
       | RFail => None
       | RSkip =>
-          match rd_items rdk (pre ++ [[]]) rest bs with
+          match rd_items E v rdk (pre ++ [[]]) rest bs with
           | None => None
           | Some (fs, r') => Some ([] :: fs, r')
           end
       | RItem it' =>
-          match rd_field (rdk (i_tag it') (i_kind it')) it' bs with
+          match rd_field (rdk (i_tag it') (i_kind it')) it' (item_count E v pre it) bs with
           | None => None
           | Some (f, r) =>
-              match rd_items rdk (pre ++ [f]) rest r with
+              match rd_items E v rdk (pre ++ [f]) rest r with
               | None => None
               | Some (fs, r') => Some (f :: fs, r')
               end
@@ -268,15 +358,21 @@ Fixpoint rd (fuel : nat) (tag : Z) (k : kind) (bs : bytes) {struct fuel} : optio
               match dec_hdr tag STRUCT_CODE bs with
               | None => None
               | Some (len, r) =>
-                  let n := Z.to_nat (Z.min len (zlen r)) in       (* BytearrayStream.read(length): at most what is there *)
-                  let sub := firstn n r in
-                  let rest := skipn n r in
-                  match rd_items (rd f) [] (filter (active v) (c_rd k)) sub with
-                  | None => None
-                  | Some (fields, leftover) =>
-                      if c_oversize_check k && negb (Nat.eqb (List.length leftover) 0) then None
-                      else Some (VS fields, rest)
-                  end
+                  if c_substream k then
+                    let n := Z.to_nat (Z.min len (zlen r)) in       (* BytearrayStream.read(length): at most what is there *)
+                    let sub := firstn n r in
+                    let rest := skipn n r in
+                    match rd_items E v (rd f) [] (filter (active v) (c_rd k)) sub with
+                    | None => None
+                    | Some (fields, leftover) =>
+                        if c_oversize_check k && negb (Nat.eqb (List.length leftover) 0) then None
+                        else Some (VS fields, rest)
+                    end
+                  else
+                    match rd_items E v (rd f) [] (filter (active v) (c_rd k)) r with
+                    | None => None
+                    | Some (fields, rest) => Some (VS fields, rest)
+                    end
               end
           end
       end
@@ -286,7 +382,11 @@ End Reader.
 (* ------------------------------------------------------------------ static check on an extracted environment *)
 
 Definition mult_eqb (a b : mult) : bool :=
-  match a, b with Req, Req | Opt, Opt | Many, Many | Many1, Many1 => true | _, _ => false end.
+  match a, b with
+  | Req, Req | Opt, Opt | Many, Many | Many1, Many1 => true
+  | Counted i c t, Counted j d u => Nat.eqb i j && String.eqb c d && (t =? u)
+  | _, _ => false
+  end.
 
 Definition kind_eqb (a b : kind) : bool :=
   match a, b with
@@ -306,7 +406,11 @@ Fixpoint table_eqb (a b : list (pval * (Z * kind))) : bool :=
 Definition by_eqb (a b : option by_spec) : bool :=
   match a, b with
   | None, None => true
-  | Some x, Some y => Nat.eqb (by_ix x) (by_ix y) && Bool.eqb (by_skip_if_absent x) (by_skip_if_absent y)
+  | Some x, Some y => (match by_src x, by_src y with
+                       | ByField i, ByField j => Nat.eqb i j
+                       | ByNextType, ByNextType => true
+                       | _, _ => false
+                       end) && Bool.eqb (by_skip_if_absent x) (by_skip_if_absent y)
                       && table_eqb (by_table x) (by_table y)
   | _, _ => false
   end.
@@ -347,10 +451,16 @@ Fixpoint tags_disjointb (items : list item) : bool :=
   | it :: r => forallb (fun t => negb (memb t (List.concat (map tags_of_item r)))) (tags_of_item it) && tags_disjointb r
   end.
 
+Definition is_req (m : mult) : bool := match m with Req => true | _ => false end.
+
+(* multiplicities that look at the stream after their last occurrence *)
+Definition peeks (m : mult) : bool := match m with Req | Counted _ _ _ => false | _ => true end.
+
 Definition item_ok (E : env) (it : item) : bool :=
   match i_by it with
   | None => tag_ok (i_tag it) && kind_ok E (i_kind it)
   | Some b => forallb (fun e => tag_ok (fst (snd e)) && kind_ok E (snd (snd e))) (by_table b)
+              && match by_src b with ByNextType => is_req (i_mult it) && negb (by_skip_if_absent b) | ByField _ => true end
   end.
 
 (* reader and writer schemas agree item by item; tags are legal; under every version the tags an
@@ -359,7 +469,8 @@ Definition item_ok (E : env) (it : item) : bool :=
 Definition cls_ok (E : env) (k : cls) : bool :=
   items_eqb (c_rd k) (c_wr k)
   && forallb (item_ok E) (c_rd k)
-  && forallb (fun v => tags_disjointb (filter (active v) (c_rd k))) VERSIONS.
+  && forallb (fun v => tags_disjointb (filter (active v) (c_rd k))) VERSIONS
+  && (c_substream k || forallb (fun it => negb (peeks (i_mult it))) (c_rd k)).
 
 Definition env_ok (E : env) : bool :=
   forallb (cls_ok E) (e_classes E).
